@@ -33,7 +33,17 @@ func main() {
 	knownPath := flag.String("known", "/verif/known_findings.json", "known findings file")
 	overlayPath := flag.String("overlay", "", "JSON file {path: replacement-file} applied as go/packages overlay")
 	list := flag.Bool("list", false, "list registered properties")
+	explain := flag.Bool("explain", false, "print {property: {explanation, technique}} as JSON")
 	flag.Parse()
+	if *explain {
+		out := map[string]map[string]string{}
+		for id := range registry {
+			out[id] = map[string]string{"explanation": propExplain[id], "technique": propTechnique[id]}
+		}
+		data, _ := json.MarshalIndent(out, "", " ")
+		fmt.Println(string(data))
+		return
+	}
 	if *list {
 		var ids []string
 		for id := range registry {
